@@ -43,6 +43,17 @@ def _cases(tier, seed):
     for N, M, R in [([2], [3], [1, 1]), ([2, 1], [1, 2], [1, 2, 1]), ([1, 2], [2, 1], [1, 2, 1])]:
         for sq in (True, False):
             cs.append({'scen': 'tt_norm', 's': {'N': N, 'M': M, 'R': R, 'dtype': 'float64', 'squared': sq, 'variant': 'untracked'}, 'opts': AOPTS})
+    # ---- histories on one object: norm, set_core, norm
+    for N, R, k in [([3], [1, 1], 0), ([2, 3], [1, 2, 1], 1), ([2, 3], [1, 1, 1], 1), ([2, 2, 2], [1, 1, 2, 1], 1)]:
+        for sq, fsq in ((True, True), (False, False), (True, False)):
+            if R == [1, 2, 1] and (sq, fsq) != (True, True) and not th:
+                continue
+            cs.append({'scen': 'tt_norm', 's': {'N': N, 'R': R, 'dtype': 'float64', 'squared': sq, 'first_squared': fsq, 'variant': 'untracked',
+                                                'history': 'norm_set_core_norm', 'k': k}, 'opts': AOPTS})
+    cs.append({'scen': 'tt_norm', 's': {'N': [2], 'M': [2], 'R': [1, 1], 'dtype': 'float64', 'squared': False, 'variant': 'untracked',
+                                        'history': 'norm_set_core_norm', 'k': 0}, 'opts': AOPTS})
+    cs.append({'scen': 'tt_norm', 's': {'N': [2, 3], 'R': [1, 2, 1], 'dtype': 'float64', 'squared': True, 'first_squared': True, 'tracked': True,
+                                        'history': 'norm_set_core_norm', 'k': 1}})
     # ---- dot: full
     for N, R in structs:
         d = len(N)
@@ -113,8 +124,8 @@ def sig(case, label):
             single = ':remaining_singleton' if any(n == 1 for n in rem) and (kind == 'tt' or any(s['M'][i] == 1 and s['N'][i] == 1 for i in range(len(s['N'])) if i not in s['index'])) else ''
         return 'tt_sum:%s:%s%s:%s' % (kind, how, single, label)
     if sc == 'tt_norm':
-        return 'tt_norm:%s:%s:order%s:%s' % ('ttm' if 'M' in s else 'tt', 'tracked' if s.get('tracked') else 'untracked',
-                                               '1' if len(s['N']) == 1 else '>1', label)
+        return 'tt_norm:%s:%s:order%s%s:%s' % ('ttm' if 'M' in s else 'tt', 'tracked' if s.get('tracked') else 'untracked',
+                                                 '1' if len(s['N']) == 1 else '>1', ':' + s['history'] if s.get('history') else '', label)
     from ..run import default_sig
     return default_sig(case, label)
 
